@@ -142,6 +142,16 @@ def run_check(tier):
     chk.add_cases(nruns, distinct_keys=((t.get("e"), t.get("bom"), json.dumps(t.get("cps", t.get("parts"))), t.get("keep"), t.get("C")) for t in byid.values()),
                   validated=checked)
     chk.sample({"leg": "c13", "record": byid["s%d/%d" % (len(rows) // 2, rows[len(rows) // 2]["keeps"][-1])]})
+    full = {r["id"]: len(r["bytes"]) for r in rows}
+    rd = [t for t in byid.values() if "cps" in t]
+    chk.cov["domain_profile"] = {
+        "reader_records": len(rd), "writer_records": len(byid) - len(rd),
+        "with_bom": sum(1 for t in rd if t["bom"]),
+        "bomless_first_char_ascii": sum(1 for t in rd if not t["bom"] and t["cps"] and 1 <= t["cps"][0] <= 127),
+        "whole_stream": sum(1 for t in rd if full.get(t["id"].split("/")[0].replace("short1", "").replace("short7", "").replace("hook", "")) == t["keep"]),
+        "odd_length_utf16_or_non_multiple_of_4_utf32": sum(1 for t in rd if (t["e"].startswith("Utf16") and t["keep"] % 2) or (t["e"].startswith("Utf32") and t["keep"] % 4)),
+        "runs_with_written_scheme_detected": sum(1 for t in rd for r in t["runs"] if r["utf"] == t["e"]),
+        "runs_total": sum(len(t["runs"]) for t in rd)}
     slim = {}
     for b in bad:
         t = byid.get(b["id"])
@@ -156,6 +166,36 @@ def run(tier):
 
 
 def replay(path):
+    """Regenerates the byte stream of the failing record with TLC, re-executes that truncation point on the current tree
+    and judges it again."""
     f = json.load(open(path))
     print(json.dumps(f, indent=1)[:3000])
-    return run_check("quick")
+    t = (f.get("case") or {}).get("record")
+    if not t or "cps" not in t or "keep" not in t:
+        return run_check("quick")
+    uc.use_known_findings_override()
+    chk = Check("C13", "quick")
+    fill = 0
+    while fill < len(t["cps"]) and t["cps"][fill] == 0x61:
+        fill += 1
+    rows = []
+    for fl in sorted({fill, max(fill - 1, 0)}):
+        out = os.path.join(vlib.scratch(), "c13replay-%d.ndjson" % fl)
+        vlib.tlc("Gen_EncodedStream", cfg="Gen_EncodedStream.cfg", workers=1, timeout=600,
+                 env={"C": t["C"], "FLO": fl, "FHI": fl, "CLASSES": 8, "TAILS": 3, "OUT": out, "WOUT": ""})
+        rows += [r for r in vlib.read_ndjson(out) if r["e"] == t["e"] and r["bom"] == t["bom"] and r["cps"] == t["cps"]]
+    if not rows:
+        print("the text of this record is not one of the generator's parametric texts; running the quick tier instead")
+        return run_check("quick")
+    row = dict(rows[0], id="replay", keeps=[t["keep"]], kind=t.get("kind", "sstream"))
+    scn = os.path.join(vlib.scratch(), "c13-replay-scn.ndjson")
+    vlib.write_ndjson(scn, [row])
+    exe = build("encstream_harness", ["encstream_harness.cpp"], groups=())
+    p = vlib.run([exe, "read", scn], timeout=120, check=False)
+    lines = [l for l in p.stdout.splitlines() if l.strip() and not l.startswith('{"e":')]
+    print("\n".join(l[:1500] for l in lines))
+    checked, bad = vlib.validate_traces("Trace_EncodedStream", lines, cfg="Trace_EncodedStream.cfg", shards=1, xss="512m")
+    byid = {json.loads(l)["id"]: dict(json.loads(l), u=json.loads(l).get("cps"), tw=None) for l in lines}
+    chk.add_cases(len(lines), validated=checked)
+    uc.report_bad(chk, bad, byid, "C13")
+    return chk.finish()
